@@ -2,7 +2,7 @@
    (orso/types.py: OrsoTypes.parse 117-120, the per-type parsers 288-355, parse_decimal
    239-262, the tables 221-236 / 265-280 / 358-373), of DecimalFactory.__call__
    (orso/tools.py "class DecimalFactory") and of the cast of a column default
-   (orso/schema.py FlatColumn.__init__, "if self.default:").  No proofs here.
+   (orso/schema.py FlatColumn.__init__, "if self.default is not None and ...").  No proofs here.
 
    Text is [list N] (code points), bytes are [list N] (< 256), Python integers are [Z],
    a float is its 64 IEEE-754 bits ([N]), a Decimal is sign / coefficient / exponent.
@@ -413,19 +413,6 @@ Definition render_datetime (y m d h mi s us : Z) : list N :=
   render_date y m d ++ [cSp] ++ d2 h ++ [cColon] ++ d2 mi ++ [cColon] ++ d2 s
   ++ (if us =? 0 then [] else cDot :: d6 us).
 
-Definition truthy (x : pyval) : bool :=
-  match x with
-  | PNone => false
-  | PBool b => b
-  | PInt z => negb (z =? 0)
-  | PFloat f => negb (f_is_zero f)
-  | PStr s | PBytes s => match s with [] => false | _ => true end
-  | PDate _ _ _ | PDatetime _ _ _ _ _ _ _ => true
-  | PDecimal (DFin _ c _) => negb (c =? 0)
-  | PDecimal _ => true
-  | PList l | PTuple l | PSet l => match l with [] => false | _ => true end
-  end.
-
 Definition to_c08 (x : pyval) : value :=
   match x with
   | PInt z => VInt z
@@ -595,11 +582,29 @@ Definition parse (t : otype) (k : kwargs) (x : pyval) : res pyval :=
       end
   end.
 
-(* FlatColumn(type=t, default=x).default: "if self.default:" cast without keyword
-   arguments, any exception re-raised as ValueError *)
-Definition column_default (t : otype) (x : pyval) : res pyval :=
-  if truthy x then match parse t nokw x with ROk r => ROk r | RErr _ => RErr XValue end
-  else ROk x.
+(* FlatColumn(type=t, length=, precision=, scale=, element_type=, default=x).default
+   (orso/schema.py FlatColumn.__init__): a DECIMAL column first fills in a missing precision
+   (decimal.getcontext().prec) and a missing scale (int(0.75 * precision)); then every
+   default other than None of a typed column is cast with the column's own length,
+   precision, scale and element type, any exception re-raised as ValueError; an untyped
+   column (_MISSING_TYPE) keeps its default. *)
+Definition untyped (t : otype) : bool := match t with T__MISSING_TYPE => true | _ => false end.
+
+Definition column_kwargs (t : otype) (k : kwargs) : kwargs :=
+  match t with
+  | T_DECIMAL =>
+      let p := match kw_precision k with Some p => p | None => context_prec end in
+      let s := match kw_scale k with Some s => s | None => Z.quot (column_scale_num * p) column_scale_den end in
+      mkkw (kw_length k) (Some p) (Some s) (kw_element k)
+  | _ => k
+  end.
+
+Definition column_default (t : otype) (k : kwargs) (x : pyval) : res pyval :=
+  match x with
+  | PNone => ROk PNone
+  | _ => if untyped t then ROk x
+         else match parse t (column_kwargs t k) x with ROk r => ROk r | RErr _ => RErr XValue end
+  end.
 
 End Parse.
 
@@ -648,7 +653,7 @@ Definition str_with (o : otab) := py_str (o_repr o) (o_strc o).
 (* a cast case: via FlatColumn?, type, kwargs, input, oracle tables, observed outcome *)
 Definition cast_case := (bool * otype * kwargs * pyval * otab * res pyval)%type.
 Definition c07_run (c : cast_case) : res pyval :=
-  let '(col, t, k, x, o, _) := c in if col then column_with o t x else parse_with o t k x.
+  let '(col, t, k, x, o, _) := c in if col then column_with o t k x else parse_with o t k x.
 Definition c07_check (c : cast_case) : bool :=
   let '(_, _, _, _, _, obs) := c in res_eqb (c07_run c) obs.
 Definition c07_show (c : cast_case) := c07_run c.
